@@ -30,8 +30,11 @@ python3 - "$seed" "$suite" "$with" "$without" <<'PY'
 import json, sys, os, re
 seed, suite, w, wo = sys.argv[1:5]
 ok_suite = "71 passed" in suite and "failed" not in suite
-ok_with = "failed" in w or "error" in w.lower() or "timed out" in w
-ok_without = "passed" in wo and "failed" not in wo
+if "exit=" in w and "exit=" in wo:      # demo/run.sh: the exit status decides
+    ok_with = "exit=0" not in w; ok_without = "passed exit=0" in wo
+else:
+    ok_with = "failed" in w or "error" in w.lower() or "timed out" in w
+    ok_without = "passed" in wo and "failed" not in wo
 m = dict(seed=os.path.basename(seed), suite_with_change=suite.strip(), demo_with_change=w.strip(), demo_without_change=wo.strip(),
          confirmed=bool(ok_suite and ok_with and ok_without))
 p = os.path.join(seed, "confirm.json")
